@@ -61,4 +61,23 @@ CHECKS = {
                 'the two fix: commits, not by a model.',
         'technique': 'Coq proof (counting argument over lists, nia) + exact vm_compute correspondence',
     },
+    'C10': {
+        'text': 'Machine-checked proof (Properties/C10.v): the dose rate is dose/duration inside a scheduled interval and '
+                'zero outside; for ANY list of scheduled pulses and ANY time T the integral of the dose rate over [0,T] '
+                '(Coquelicot is_RInt) is the sum of rate x elapsed part, which outside the infusion windows is dose x '
+                'number of completed doses; the regimen table computed by get_dosing_regimen equals the specification '
+                '"all dose events with time <= final" for single, finite and indefinite events (axiom-free, Z '
+                'arithmetic); dataset rows are reproduced one to one. Tied to /repo on every run through a substitute '
+                'for myokit.Simulation: exact vm_compute comparison of the myokit protocol and regimen table of real '
+                'PKPDModel / PredictiveModel objects (220+ regimens, final times on and around dose times), '
+                'CoqInterval-certified cumulative input of the simulated system (direct and depot route), and direct '
+                'checks of the protocol attached at run time after operation sequences and of the regimens the problem '
+                'controller derives from datasets and applies per individual.',
+        'note': 'Trusted: Coq kernel, stdlib, Coquelicot, CoqInterval, ' + STD_AXIOMS + ' (real-valued theorems only); '
+                'hand-written Model/Dosing.v; harness/simsub.py replaces the absent sundials solver (scipy LSODA, '
+                'self-tested against analytic solutions on every run) - the numerical ODE solution and myokit\'s own '
+                'pacing engine are oracles, not verified; the model surgery of set_administration is tied only through '
+                'the cumulative-input comparison.',
+        'technique': 'Coq proof (Coquelicot RInt, Chasles; Z-arithmetic for the table) + exact vm_compute and CoqInterval correspondence via a solver substitute',
+    },
 }
